@@ -107,7 +107,8 @@ def cases_file(s, cases, asts, runs, cfg, evals, extra_imports="", extra_asts=()
                 collect_str_oracle(call["ret"][1], stro)
     for c in cases:
         collect_strings(c.get("root"), strings)
-        collect_str_oracle(c.get("root"), stro)
+        # the REALISED initial value: str() of a placeholder is not what the engine's scalars see
+        collect_str_oracle(execgen.realise(c.get("root")), stro)
     ftab = float_table(list(asts) + list(extra_asts), strings)
     seen, stab = set(), []
     for k, v in stro:
